@@ -304,6 +304,52 @@ pub fn case(rng: &mut Rng, max_objects: usize) -> String {
         ),
     };
 
+    // the mode-agnostic wrapper (next / nth / len / size_hint dispatch) against the mode's own calculator
+    let ops = gen_ops(rng, total);
+    let wrapper_eq = catch_unwind(AssertUnwindSafe(|| {
+        let mut any = rosu_pp::GradualDifficulty::new_with_mode(d.clone(), &map, mode_of(target)).ok()?;
+        macro_rules! specific {
+            ($t:ty, $variant:ident) => {{
+                let mut g = <$t>::new(d.clone(), &map).ok()?;
+                let mut same = true;
+                for op in &ops {
+                    match op {
+                        GOp::Next => {
+                            let a = any.next().map(|x| match x {
+                                rosu_pp::any::DifficultyAttributes::$variant(v) => v.json(),
+                                _ => String::from("wrong variant"),
+                            });
+                            same &= a == g.next().map(|v| v.json());
+                        }
+                        GOp::Nth(k) => {
+                            let k = usize::try_from(*k).unwrap_or(usize::MAX);
+                            let a = any.nth(k).map(|x| match x {
+                                rosu_pp::any::DifficultyAttributes::$variant(v) => v.json(),
+                                _ => String::from("wrong variant"),
+                            });
+                            same &= a == g.nth(k).map(|v| v.json());
+                        }
+                        GOp::Len => {
+                            same &= any.len() == g.len() && any.size_hint() == g.size_hint();
+                        }
+                    }
+                }
+                Some(same)
+            }};
+        }
+        match target {
+            0 => specific!(OsuGradualDifficulty, Osu),
+            1 => specific!(TaikoGradualDifficulty, Taiko),
+            2 => specific!(CatchGradualDifficulty, Catch),
+            _ => specific!(ManiaGradualDifficulty, Mania),
+        }
+    }));
+    let body = match wrapper_eq {
+        Ok(Some(eq)) => format!("{{\"wrapper_eq\":{eq},\"wrapper_ops\":{},{}", ops_json(&ops), &body[1..]),
+        Ok(None) => body,
+        Err(e) => format!("{{\"panic_wrapper\":{},{}", esc(&panic_msg(e)), &body[1..]),
+    };
+
     format!(
         "{{\"mode\":{target},\"src_mode\":{src_mode},\"shape\":{},\"n_objects\":{},\"clock_rate\":{},\"settings\":{},\"view\":{},\"map\":{},{}",
         esc(gm.shape),
